@@ -83,6 +83,14 @@ Theorem judges_report_no_violation_on_model : forall inp,
 Proof. exact judge01W_no_violation_on_model. Qed.
 Print Assumptions judges_report_no_violation_on_model.
 
+(** C08's quarantine monitor on the wired store (sub-check C08W): silent on the
+    model for every accepted configuration and ALL schedules, corruption
+    events included *)
+Theorem mon08W_silent_on_model : forall inp w,
+  wired_world inp = Some w -> mon08W w (dec_ops inp) (run01W inp) = [].
+Proof. exact mon08W_silent. Qed.
+Print Assumptions mon08W_silent_on_model.
+
 (** non-vacuity: a CAS store on a block device (2 spare, 1 old, 2 current, 3
     new regions; 4096-byte sectors, 35 of them) and an in-memory Action Cache *)
 Definition wiA : wiring := {| wi_ac := false; wi_hier := true; wi_old := 1; wi_cur := 2; wi_new := 3; wi_device := true;
